@@ -244,6 +244,40 @@ theorem chiral_morgan_fuel_suffices (h : TupleHash) (single : Nat → Bool) (m :
     chiralMorgan h single m labels ≠ .fuelOut :=
   chiralMorgan_fuel h single m labels
 
+open ChythonModel.Model.ChiralMorgan in
+/-- the labelled atoms are tetrahedral carbons, no bond carries a label, and **no two labelled centres are in the same
+    `atoms_order` class** (`r0`): the situation of almost every stereo molecule of the corpus -/
+def InequivalentCentres (h : TupleHash) (single : Nat → Bool) (m : MolView) (labels : List (Nat × Bool))
+    (r0 : List (Nat × Nat)) : Prop :=
+  stereoBondAtoms m.bonds = [] ∧ labels ≠ [] ∧ atomsOrder h m = some r0 ∧
+  ∃ tet tetra, tetrahedrons m = .ok tet ∧ stereogenicTetrahedrons single m = .ok tetra ∧
+    (∀ n ∈ labels.map (·.1), n ∈ tet) ∧
+    ∃ val : Nat → Nat, (∀ n ∈ labels.map (·.1), r0.lookup n = some (val n)) ∧ ((labels.map (·.1)).map val).Nodup
+
+open ChythonModel.Model.ChiralMorgan in
+/-- **stereo labels on pairwise inequivalent centres do not change the classes**: `__differentiation` finds only
+    groups of size one, updates nothing, and `_chiral_morgan` returns `atoms_order` — whatever the signs of the labels. -/
+theorem chiral_morgan_is_atoms_order_of_inequivalent_centres (h : TupleHash) (single : Nat → Bool) (m : MolView)
+    (labels : List (Nat × Bool)) (r0 : List (Nat × Nat)) (hic : InequivalentCentres h single m labels r0) :
+    chiralMorgan h single m labels = .ranks r0 := by
+  obtain ⟨hb, hl, hr, tet, tetra, ht, hst, hin, val, hval, hd⟩ := hic
+  exact chiralMorgan_distinct h single m labels r0 tet tetra hb hl hr ht hst hin val hval hd
+
+open ChythonModel.Model.ChiralMorgan in
+/-- … hence for such molecules the writer's weights are a function of the structure alone: any renumbering, any
+    insertion order, **any re-expression of the label signs** (they are stored relative to insertion order). -/
+theorem chiral_morgan_equivariant_of_inequivalent_centres (h : TupleHash) (single : Nat → Bool) {π : Nat → Nat}
+    (hπ : Function.Injective π) {m m' : MolView} (hk : KeysOK m) (hmm : MolEq π m m')
+    {labels labels' : List (Nat × Bool)} {r0 r0' : List (Nat × Nat)}
+    (hic : InequivalentCentres h single m labels r0) (hic' : InequivalentCentres h single m' labels' r0') :
+    ChiralRel π (chiralMorgan h single m labels) (chiralMorgan h single m' labels') := by
+  rw [chiral_morgan_is_atoms_order_of_inequivalent_centres h single m labels r0 hic,
+      chiral_morgan_is_atoms_order_of_inequivalent_centres h single m' labels' r0' hic']
+  have he := atoms_order_equivariant h hπ hk hmm
+  rw [hic.2.2.1, hic'.2.2.1] at he
+  cases he with
+  | some hrr => exact .ranks hrr
+
 /-! ## no exception on well-formed input; `Element.__hash__` never hashes `None` -/
 
 /-- (regenerated table) every optional attribute in `Element.__hash__` is written `… or 0` -/
@@ -399,6 +433,17 @@ example : MolEq (fun n => n + 10) exM exM' := by
 example : atomsOrder toyHash exM = some [(1, 1), (3, 2), (2, 3)] := by decide +kernel
 example : atomsOrder toyHash exM' = some [(11, 1), (13, 2), (12, 3)] := by decide +kernel
 example : Discrete [(1, 1), (3, 2), (2, 3)] := by unfold Discrete; decide
+
+/-- a labelled centre: 1-aminoethanol CH3–C*H(NH2)(OH), label on atom 2 -/
+def exS : MolView :=
+  ⟨[(1, { z := 6, implH := some 3 }), (2, { z := 6, implH := some 1 }), (3, { z := 7, implH := some 2 }),
+    (4, { z := 8, implH := some 1 })],
+   [(1, [(2, ⟨1, none⟩)]), (2, [(1, ⟨1, none⟩), (3, ⟨1, none⟩), (4, ⟨1, none⟩)]), (3, [(2, ⟨1, none⟩)]),
+    (4, [(2, ⟨1, none⟩)])]⟩
+
+example : InequivalentCentres toyHash (fun _ => true) exS [(2, true)] [(1, 1), (3, 2), (4, 3), (2, 4)] := by
+  refine ⟨by decide, by decide, by decide +kernel, [1, 2], [(2, [1, 3, 4])], by decide +kernel, by decide +kernel,
+    by decide, fun _ => 4, by decide, by decide⟩
 
 /-- the hypothesis of `smiles_invariant_of_discrete_partial` is satisfiable: a (toy) writer that prints an
     order-independent digest of the rank-keyed molecule -/
